@@ -257,6 +257,32 @@ structure Engine where
   lpShortPair : Bool := false
   /-- listpairs: an entry naming an unknown field panics (ideal: rejected) -/
   lpUnknownKeyPanic : Bool := false
+  /-- (generated code, C13) tuple representation: `Finish` does not check that the required fields were assigned.
+      A list shorter than the required fields is accepted and every missing field holds its Go zero value
+      (`zeroOf`); a zero value that cannot be read back (a link, a union, a struct or union behind a nil
+      pointer) makes the outcome `panic` (ideal: rejected) -/
+  tupleShortAccepted : Bool := false
+  /-- (generated code, C13) stringprefix union with the EMPTY delimiter: the text is cut by
+      `strings.SplitN(s, "", 2)`, i.e. after its first UTF-8 sequence, and a member is selected only if its
+      discriminant EQUALS that first piece (ideal: the first member whose discriminant is a prefix of the text) -/
+  prefixEmptyDelimSplit : Bool := false
+  /-- (generated code, C13) the representation builder of a kinded union refuses null even in a nullable slot -/
+  kindedNullRejected : Bool := false
+  /-- (generated code, C13) typed map: a key that is already present is accepted when it arrives through the key
+      assembler (`AssembleKey`; driving mode `viaKeys`); both entries stay, each with its own value (ideal: rejected) -/
+  keyAsmDupMapKey : Bool := false
+  /-- (generated code, C13) `AssignNode` of a foreign node of recursive kind (driving mode `viaNode`) iterates the
+      node without doing first what `BeginMap`/`BeginList` do: the typed map's index is never made (panic at the
+      first entry), and a struct or union behind a pointer `Maybe` (optional or nullable field, nullable list/map
+      value) is never allocated (`nilSlotAssign`) -/
+  assignNodeSkipsBegin : Bool := false
+  /-- HOW the builder is driven - not a deviation, not listed in `flags`: every map entry through
+      `AssembleKey().AssignString` + `AssembleValue()` instead of `AssembleEntry` -/
+  viaKeys : Bool := false
+  /-- HOW the builder is driven - not a deviation, not listed in `flags`: the whole input is handed over as ONE
+      prebuilt foreign node (`AssignNode`); every subtree then arrives by `AssignNode`, except the list/map a
+      kinded union dispatches on (its assembler calls the member's `BeginMap`/`BeginList`) -/
+  viaNode : Bool := false
   deriving Repr, DecidableEq, Inhabited
 
 def Engine.ideal : Engine := {}
@@ -266,6 +292,14 @@ def Engine.ideal : Engine := {}
     (known_findings.json, status fixed); the flags stay in the model so that a regression is
     classified by name (`schema.quirks`) and so that the theorems can say what each flag costs. -/
 def Engine.bindnode : Engine := {}
+
+/-- Code generated by schema/gen/go (C13): the deviations of the generated builders, as found by the
+    differential run against the reflection binding.  A flag that is set here and not in `bindnode` is a
+    place where the two engines disagree (known_findings.json, `C13/gen-<flag>`). -/
+def Engine.gen : Engine :=
+  -- tupleShortAccepted, kindedNullRejected, assignNodeSkipsBegin, prefixEmptyDelimSplit were set here for the pinned
+  -- commit's generator; repaired in /repo (40ac55b, the kinded AssignNull fix, 6982f51, ce97b14) they are off.
+  { keyAsmDupMapKey := true }
 
 /-- The flags by name (driver, classifier): `(name, isSet, cleared)`. -/
 def Engine.flags (e : Engine) : List (String × Bool × Engine) :=
@@ -279,7 +313,12 @@ def Engine.flags (e : Engine) : List (String × Bool × Engine) :=
     ("enumNameAtRepr", e.enumNameAtRepr, { e with enumNameAtRepr := false }),
     ("nullableUnionPanic", e.nullableUnionPanic, { e with nullableUnionPanic := false }),
     ("lpShortPair", e.lpShortPair, { e with lpShortPair := false }),
-    ("lpUnknownKeyPanic", e.lpUnknownKeyPanic, { e with lpUnknownKeyPanic := false }) ]
+    ("lpUnknownKeyPanic", e.lpUnknownKeyPanic, { e with lpUnknownKeyPanic := false }),
+    ("tupleShortAccepted", e.tupleShortAccepted, { e with tupleShortAccepted := false }),
+    ("prefixEmptyDelimSplit", e.prefixEmptyDelimSplit, { e with prefixEmptyDelimSplit := false }),
+    ("kindedNullRejected", e.kindedNullRejected, { e with kindedNullRejected := false }),
+    ("keyAsmDupMapKey", e.keyAsmDupMapKey, { e with keyAsmDupMapKey := false }),
+    ("assignNodeSkipsBegin", e.assignNodeSkipsBegin, { e with assignNodeSkipsBegin := false }) ]
 
 /-! ## Byte-string helpers (Go `strings.Split`, `SplitN(…, 2)`, `HasPrefix`) -/
 
@@ -315,6 +354,20 @@ def joinBytes (d : Bytes) : List Bytes → Bytes
   | [p] => p
   | p :: ps => p ++ d ++ joinBytes d ps
 
+/-- Width of the first UTF-8 sequence of a non-empty string as `utf8.DecodeRuneInString` reports it, for
+    well-formed text (a lead byte whose continuation bytes are missing or malformed counts 1, like Go's
+    RuneError; overlong forms and surrogates are outside the modelled space). -/
+def firstRuneWidth : Bytes → Nat
+  | [] => 0
+  | b :: rest =>
+    let want : Nat := if b < 0x80 then 1 else if b < 0xC0 then 1 else if b < 0xE0 then 2 else if b < 0xF0 then 3 else if b < 0xF8 then 4 else 1
+    if (rest.take (want - 1)).length == want - 1 && (rest.take (want - 1)).all (fun c => 0x80 ≤ c && c < 0xC0) then want else 1
+
+/-- `strings.SplitN(s, "", 2)`: the first UTF-8 sequence and the rest, if the text has at least two sequences. -/
+def splitFirstRune (s : Bytes) : Option (Bytes × Bytes) :=
+  let w := firstRuneWidth s
+  if w == 0 || (s.drop w).isEmpty then none else some (s.take w, s.drop w)
+
 /-! ## Lookups -/
 
 def findIdx {α : Type} (p : α → Bool) : List α → Option (Nat × α)
@@ -344,6 +397,95 @@ def memberByKey (e : Engine) (lvl : Level) (ms : List Member) (k : Bytes) : Opti
 def wrapPath : List Bytes → TL → TL
   | [], v => v
   | n :: ns, v => .map (.cons n (wrapPath ns v) .nil)
+
+/-! ## Go zero values and unallocated slots (generated code, C13) -/
+
+/-- generated code keeps a `Maybe` of this type behind a pointer (adjunctCfg.go `MaybeUsesPtr`: everything
+    larger than four words, i.e. structs and unions) -/
+def usesPtr : Ty → Bool
+  | .struct _ _ => true
+  | .union _ _ => true
+  | _ => false
+
+def isKinded : Ty → Bool
+  | .union _ .kinded => true
+  | _ => false
+
+/-- The marker for a value the engine stores but that cannot be read back (a nil link, a union without member, a
+    struct or union behind a nil pointer): a list holding `absent`.  No builder produces it otherwise (list
+    elements are never absent), so it is recognisable wherever it ends up; the build goes on around it, and a
+    result that contains it counts as `panic` (`Outcome.seal`). -/
+def TL.unreadable : TL := .list (.cons .absent .nil)
+
+mutual
+def TL.broken : TL → Bool
+  | .list xs => TLs.broken xs
+  | .map es => TLKVs.broken es
+  | _ => false
+def TLs.broken : TLs → Bool
+  | .nil => false
+  | .cons .absent _ => true
+  | .cons x xs => TL.broken x || TLs.broken xs
+def TLKVs.broken : TLKVs → Bool
+  | .nil => false
+  | .cons _ v es => TL.broken v || TLKVs.broken es
+end
+
+mutual
+/-- What reading the Go zero value of a generated type shows at type level (`TL.unreadable` where it cannot be read). -/
+def zeroOf : Ty → TL
+  | .bool => .bool false
+  | .int => .int 0
+  | .float => .float 0
+  | .str => .str []
+  | .bytes => .bytes []
+  | .link => TL.unreadable
+  | .any => TL.unreadable
+  | .list _ _ => .list .nil
+  | .map _ _ => .map .nil
+  | .struct fs _ => .map (TLKVs.ofList (zeroFields fs))
+  | .union _ _ => TL.unreadable
+  | .enum _ _ => TL.unreadable
+/-- the fields of a zero struct: optional ones read Absent (their `Maybe` is 0 = Absent); a nullable required one
+    reads the zero value of its type, or nothing readable if that sits behind a (nil) pointer -/
+def zeroFields : Fields → List (Bytes × TL)
+  | .nil => []
+  | .cons n _ opt nu t rest =>
+    (n, if opt then TL.absent else if nu && usesPtr t then TL.unreadable else zeroOf t) :: zeroFields rest
+end
+
+/-- the value of a required field that was never assigned -/
+def zeroField (f : Field) : TL :=
+  if f.nullable && usesPtr f.ty then TL.unreadable else zeroOf f.ty
+
+/-- `Engine.assignNodeSkipsBegin`: a map/list node `d` is handed by `AssignNode` to the assembler of `ty` whose
+    slot is a `Maybe` (`maybe`); if `ty` lives behind a pointer nothing was allocated.  `some o`: the outcome is
+    decided here; `none`: assembly proceeds as usual.
+    struct as a map (type level / map representation): the first key is looked up before anything is written - an
+      unknown one is refused, a known one dereferences the nil struct (panic); no entry at all: `Finish` refuses if a
+      field is required, else succeeds and the nil pointer is stored (unreadable).
+    tuple: no element: `Finish` succeeds, the nil pointer is stored; else the first element dereferences it (no
+      field: refused).
+    union as a map (type level / keyed): an unknown first key is refused, a known one dereferences; none: refused. -/
+def nilSlotAssign (e : Engine) (lvl : Level) (maybe : Bool) (ty : Ty) (d : DM) : Option (Outcome TL) :=
+  if !(e.viaNode && e.assignNodeSkipsBegin && maybe) then none else
+  match ty, d with
+  | .struct fs sr, .map es =>
+    if lvl == Level.repr && !(match sr with | .map => true | _ => false) then none else
+    match es with
+    | .nil => some (if fs.toList.all (·.opt) then .ok TL.unreadable else .reject)
+    | .cons k _ _ => some (if (fieldByKey e lvl fs.toList k).isSome then .panic else .reject)
+  | .struct fs .tuple, .list xs =>
+    if lvl == Level.type then none else
+    match xs with
+    | .nil => some (.ok TL.unreadable)
+    | .cons _ _ => some (if fs.toList.isEmpty then .reject else .panic)
+  | .union ms ur, .map es =>
+    if lvl == Level.repr && !(match ur with | .keyed => true | _ => false) then none else
+    match es with
+    | .nil => some .reject
+    | .cons k _ _ => some (if (memberByKey e lvl ms.toList k).isSome then .panic else .reject)
+  | _, _ => none
 
 /-! ## Scalars: everything a non-recursive, non-null input can do (structural on the type) -/
 
@@ -382,7 +524,12 @@ def buildScalar (e : Engine) (lvl : Level) (nul : Bool) (d : DM) : Ty → Outcom
     | .repr, .stringprefix delim =>
       match d with
       | .str s =>
-        if delim.isEmpty then buildPrefixNoDelim e nul s ms
+        if delim.isEmpty then
+          (if e.prefixEmptyDelimSplit then
+             match splitFirstRune s with
+             | none => .reject
+             | some (p, rest) => buildPrefix e nul p rest ms
+           else buildPrefixNoDelim e nul s ms)
         else match splitFirst delim s with
           | none => .reject
           | some (p, rest) => buildPrefix e nul p rest ms
@@ -518,6 +665,18 @@ def SSt.finish (fs : List Field) (st : SSt) : Outcome TL :=
   | some es => .ok (.map (TLKVs.ofList es))
   | none => .reject
 
+def finishFieldsZero : List Field → List (Option TL) → List Bool → List (Bytes × TL)
+  | f :: fs, s :: ss, d :: ds =>
+    (f.name, match d, s with
+             | true, some v => v
+             | _, _ => if f.opt then TL.absent else zeroField f) :: finishFieldsZero fs ss ds
+  | _, _, _ => []
+
+/-- `Finish` of the generated tuple assembler (`Engine.tupleShortAccepted`): nothing is checked; the fields that
+    were not reached hold zero values. -/
+def SSt.finishZero (fs : List Field) (st : SSt) : Outcome TL :=
+  .ok (.map (TLKVs.ofList (finishFieldsZero fs st.slots st.done)))
+
 /-- Typed-map append: the key is listed once more and every entry of that key reads the new value
     (`Keys = append(Keys, k); Values[k] = v`). -/
 def mapAppend (acc : List (Bytes × TL)) (k : Bytes) (v : TL) : List (Bytes × TL) :=
@@ -537,7 +696,7 @@ mutual
 /-- The builder of `ty` at level `lvl` is fed the whole tree `d`; the slot is nullable iff `nul`
     and currently holds `cur`. -/
 def build (e : Engine) (lvl : Level) (ty : Ty) (nul : Bool) (cur : Option TL) : DM → Outcome TL
-  | .null => if nul then .ok .null else .reject
+  | .null => if nul && !(e.kindedNullRejected && lvl == Level.repr && isKinded ty) then .ok .null else .reject
   | .list xs =>
     match (match lvl with
            | .repr => resolveKinded e nul .list ty
@@ -569,7 +728,8 @@ def build (e : Engine) (lvl : Level) (ty : Ty) (nul : Bool) (cur : Option TL) : 
       let r : Outcome TL :=
         match ty' with
         | .map vty vnul =>
-          (buildMap e lvl vty vnul (curMap cur') es).map fun ys => .map (TLKVs.ofList ys)
+          if e.viaNode && e.assignNodeSkipsBegin && path.isEmpty && (match es with | .nil => false | _ => true) then .panic
+          else (buildMap e lvl vty vnul (curMap cur') es).map fun ys => .map (TLKVs.ofList ys)
         | .struct fs sr =>
           match lvl, sr with
           | .type, _ => buildStruct e lvl fs.toList (SSt.init fs.toList cur') es
@@ -588,7 +748,9 @@ def build (e : Engine) (lvl : Level) (ty : Ty) (nul : Bool) (cur : Option TL) : 
 def buildList (e : Engine) (lvl : Level) (ety : Ty) (enul : Bool) (acc : List TL) : DMs → Outcome (List TL)
   | .nil => .ok acc
   | .cons x xs =>
-    match build e lvl ety enul none x with
+    match (match nilSlotAssign e lvl enul ety x with
+           | some o => o
+           | none => build e lvl ety enul none x) with
     | .ok v => buildList e lvl ety enul (acc ++ [v]) xs
     | .reject => .reject
     | .panic => .panic
@@ -596,10 +758,12 @@ def buildList (e : Engine) (lvl : Level) (ety : Ty) (enul : Bool) (acc : List TL
 def buildMap (e : Engine) (lvl : Level) (vty : Ty) (vnul : Bool) (acc : List (Bytes × TL)) : DMKVs → Outcome (List (Bytes × TL))
   | .nil => .ok acc
   | .cons k v es =>
-    if acc.any (fun p => p.1 == k) && !e.dupMapKey then .reject
+    if acc.any (fun p => p.1 == k) && !e.dupMapKey && !(e.keyAsmDupMapKey && e.viaKeys) then .reject
     else
-      match build e lvl vty vnul none v with
-      | .ok tv => buildMap e lvl vty vnul (mapAppend acc k tv) es
+      match (match nilSlotAssign e lvl vnul vty v with
+             | some o => o
+             | none => build e lvl vty vnul none v) with
+      | .ok tv => buildMap e lvl vty vnul (if e.dupMapKey then mapAppend acc k tv else acc ++ [(k, tv)]) es
       | .reject => .reject
       | .panic => .panic
 /-- struct as a map: type level (keys = field names) or map representation (keys = representation keys) -/
@@ -611,18 +775,22 @@ def buildStruct (e : Engine) (lvl : Level) (fs : List Field) (st : SSt) : DMKVs 
     | some (i, f) =>
       if st.isDone i && !e.dupStructField then .reject
       else
-        match build e lvl f.ty f.nullable (st.curOf e i f) v with
+        match (match nilSlotAssign e lvl (f.opt || f.nullable) f.ty v with
+               | some o => o
+               | none => build e lvl f.ty f.nullable (st.curOf e i f) v) with
         | .ok tv => buildStruct e lvl fs (st.assign i tv) es
         | .reject => .reject
         | .panic => .panic
 /-- tuple representation: the i-th element is the i-th field -/
 def buildTuple (e : Engine) (fs : List Field) (st : SSt) (i : Nat) : DMs → Outcome TL
-  | .nil => st.finish fs
+  | .nil => if e.tupleShortAccepted then st.finishZero fs else st.finish fs
   | .cons x xs =>
     match fs[i]? with
     | none => .reject     -- more elements than fields
     | some f =>
-      match build e .repr f.ty f.nullable (st.curOf e i f) x with
+      match (match nilSlotAssign e .repr (f.opt || f.nullable) f.ty x with
+             | some o => o
+             | none => build e .repr f.ty f.nullable (st.curOf e i f) x) with
       | .ok tv => buildTuple e fs (st.assign i tv) (i + 1) xs
       | .reject => .reject
       | .panic => .panic
@@ -670,6 +838,15 @@ def ofType (e : Engine) (ty : Ty) (d : DM) : Outcome TL := build e .type ty fals
 
 /-- The representation-level builder (`TypedPrototype.Representation().NewBuilder()`). -/
 def ofRepr (e : Engine) (ty : Ty) (d : DM) : Outcome TL := build e .repr ty false none d
+
+/-- An accepted value that cannot be read back in full counts as a panic (`TL.unreadable`; only engines with
+    `tupleShortAccepted` / `assignNodeSkipsBegin` ever produce it). -/
+def Outcome.seal : Outcome TL → Outcome TL
+  | .ok v => if v.broken then .panic else .ok v
+  | o => o
+
+/-- What feeding a whole tree into the builder at a level shows in the end. -/
+def buildSealed (e : Engine) (lvl : Level) (ty : Ty) (d : DM) : Outcome TL := (build e lvl ty false none d).seal
 
 /-! ## The representation of a typed value -/
 
